@@ -625,6 +625,9 @@ def c17(tier):
         S('reuse-compressed', 'connection 1 negotiated permessage-deflate with context takeover, received one compressed message and stopped inside the next; '
           'connection 2 negotiates compression again and receives the first message of a NEW deflate context (abstract zlib of C06)', N1=1, N2=2,
           endings=['compressed-then-eof']),
+        S('reuse-compressed-same-parameters', 'both connections receive the SAME extension header with parameters (client_no_context_takeover): the second negotiation '
+          'must honour them as the first did - the new peer resets its inflater after every message, so every message of connection 2 must come from a fresh context',
+          N1=1, N2=2, endings=['compressed-then-eof'], ext_params='; client_no_context_takeover'),
         S('reuse-compressed-then-plain', 'connection 1 negotiated permessage-deflate; connection 2\'s server does not: the reused object must behave like a fresh one '
           '(no RSV1, no stale compressor)', N1=1, N2=2, endings=['compressed-then-plain']),
     ]
